@@ -18,7 +18,8 @@ get <slot> <key>                   MutableTree.Get (fast path) and GetWithIndex 
 getv <slot> <key> <v>              GetVersioned (gated fast path) and the walk on GetImmutable(v)
 imm <slot> <vslot> <v>             keep GetImmutableUnregistered(v) in a view slot
 vget <vslot> <key>                 ImmutableTree.Get and GetWithIndex on the kept view
-crashsave | crashprune <to> | crashopen <fast> <n>
+crashsave | crashprune <to> | crashopen <fast> <n> | crashimport <n>
+delstamp                           node down, the stamp record deleted by hand (ADR remediation)
 dump                               the persisted fast index, stamp and retained versions
 stress <seed> <rounds>             (thorough) concurrent stress, oracle only
 ```
@@ -92,6 +93,8 @@ def parse (t : List String) : Option Op :=
   | ["crashsave"] => some .crashsave
   | ["crashprune", v] => do let v ← pNat v; pure (.crashprune v)
   | ["crashopen", f, n] => do let f ← pBool f; let n ← pNat n; pure (.crashopen f n)
+  | ["delstamp"] => some .delstamp
+  | ["crashimport", n] => do let n ← pNat n; pure (.crashimport n)
   | ["dump"] => some .dump
   | ["stress", a, b] => do let _ ← pNat a; let _ ← pNat b; pure .stress
   | _ => none
